@@ -252,6 +252,7 @@ var c17Signals = map[string]*c17Signal{"logs": c17Logs, "traces": c17Traces, "me
 type c17Send struct {
 	Shape c17Shape `json:"shape"`
 	MD    string   `json:"metadata"` // "" absent | "a" | "b" | "a,b"
+	WaitMs int     `json:"wait_ms,omitempty"` // virtual time the producer lets pass before this send
 }
 
 type c17Case struct {
@@ -266,6 +267,10 @@ type c17Case struct {
 }
 
 type c17Obs struct {
+	// earlyTime: virtual time was advanced while a program thread was still runnable (an "early timer" deviation). Such a
+	// schedule models an arbitrarily long scheduling delay of the shard goroutine, under which no upper bound on latency can
+	// hold; the two timeliness oracles (size trigger / timeout) are therefore only evaluated on executions without it.
+	earlyTime  bool
 	batches    []c17Batch
 	accepted   []string          // items of Consume calls that returned nil before shutdown was requested
 	acceptedMD map[string]string // item -> metadata of its producer call
@@ -337,7 +342,10 @@ func c17Body(c *c17Case, o *c17Obs) func() {
 				if done {
 					return
 				}
-				if vs.Quiescent() && !o.shutdownAt && len(c.Keys) == 0 {
+				if !vs.Quiescent() {
+					o.earlyTime = true
+				}
+				if vs.Quiescent() && !o.earlyTime && !o.shutdownAt && len(c.Keys) == 0 {
 					n, first := pending()
 					if c.Size > 0 && c.TimeoutMs > 0 && n >= int(c.Size) {
 						o.violations = append(o.violations, fmt.Sprintf("size-trigger: %d items pending with send_batch_size=%d while the processor is idle", n, c.Size))
@@ -365,6 +373,9 @@ func c17Body(c *c17Case, o *c17Obs) func() {
 			vs.GoNamed(fmt.Sprintf("producer%d", pi+1), func() {
 				defer wg.Done()
 				for _, sd := range sends {
+					if sd.WaitMs > 0 {
+						vs.Sleep(time.Duration(sd.WaitMs) * time.Millisecond)
+					}
 					ctx := context.Background()
 					if sd.MD != "" {
 						ctx = client.NewContext(ctx, client.Info{Metadata: client.NewMetadata(map[string][]string{"k": strings.Split(sd.MD, ",")})})
@@ -411,7 +422,7 @@ func c17Body(c *c17Case, o *c17Obs) func() {
 			if c.TimeoutMs > 0 && c.Size > 0 {
 				vs.Sleep(2 * time.Duration(c.TimeoutMs) * time.Millisecond)
 				vs.Point()
-				if n, first := pending(); n > 0 {
+				if n, first := pending(); n > 0 && !o.earlyTime {
 					o.violations = append(o.violations, fmt.Sprintf("timeout: %d items accepted at %v still pending at %v (timeout %dms)", n, first, vs.Now().Sub(t0), c.TimeoutMs))
 				}
 			}
@@ -679,6 +690,9 @@ func TestVerif(t *testing.T) {
 			cases = append(cases, &c17Case{Signal: "logs", Size: sm[0], Max: sm[1], TimeoutMs: 1000, Producers: [][]c17Send{{{Shape: one(2)}, {Shape: one(1)}}, {{Shape: one(3)}}}, Concurrent: conc})
 		}
 	}
+	// arrivals spread over (virtual) time: the timer has to be re-armed after a timeout flush and after a size flush
+	cases = append(cases, &c17Case{Signal: "logs", Size: 3, Max: 0, TimeoutMs: 1000, Producers: [][]c17Send{{{Shape: one(1)}, {Shape: one(1), WaitMs: 1500}}, {{Shape: one(1), WaitMs: 2700}}}, Concurrent: false})
+	cases = append(cases, &c17Case{Signal: "traces", Size: 2, Max: 2, TimeoutMs: 1000, Producers: [][]c17Send{{{Shape: one(3), WaitMs: 400}, {Shape: one(1), WaitMs: 700}}, {{Shape: one(1), WaitMs: 2500}}}, Concurrent: false})
 	cases = append(cases, &c17Case{Signal: "traces", Size: 0, Max: 0, TimeoutMs: 0, Producers: [][]c17Send{{{Shape: one(2)}}, {{Shape: one(1)}}}, Concurrent: true})
 	cases = append(cases, &c17Case{Signal: "metrics", Size: 2, Max: 2, TimeoutMs: 1000, Producers: [][]c17Send{{{Shape: c17Shape{{{1, 2}}}}}, {{Shape: c17Shape{{{2}}}}}}, Concurrent: false})
 	// metadata keys and cardinality limit
